@@ -242,6 +242,7 @@ let parse_rscript t : rev0 list =
   let n = next_int t in
   parse_list t (fun t -> match next t with
     | "p" -> RPending | "e" -> REof | "x" -> RErr
+    | "n" -> REof      (* the peer sends nothing more and does not close (used behind a point at which the connection has ended for another reason) *)
     | "i" -> RErr     (* an interrupted read: tokio's read_exact reports it as the error it is; only used where one decode call is observed *)
     | s when String.length s >= 2 && String.sub s 0 2 = "t:" -> RPending
     | s when String.length s >= 2 && String.sub s 0 2 = "r:" -> RPending     (* a pause in wall-clock time *)
